@@ -35,7 +35,7 @@ class CohGen:
             eigen=(target != 'pybind'),            # Vector / Matrix / Point2 / Point3 (MATLAB universe)
             stl_vector=(target == 'pybind'),       # std::vector<T> (pybind universe)
             properties=True, statics=True, functions=True, variables=(target != 'matlab'),
-            operators=(target == 'pybind'), dunders=False, special_names=0.0, overloads=True,
+            operators=(target == 'pybind'), dunders=(target == 'pybind'), special_names=0.0, overloads=True,
             raw_ptr=True, shared_ptr=True, refs=True,
             # ---- flagged (known findings), off in the clean workload
             const_string_ref=False,     # D9  (matlab)
@@ -478,6 +478,10 @@ class CohGen:
                     members.append(S.Op(op, S.T(r.choice(['int', 'double'])), (S.Arg(S.T(r.choice(['int', 'size_t'])), self.lname()),)))
                 else:
                     members.append(S.Op(op, me, (S.Arg(S.T(name, self.cur_ns, (), True, '&'), self.lname()),)))
+        if f['dunders'] and r.random() < 0.25:
+            # container protocol: the library class iterates over the integers 3, 5, 8
+            for nm in r.sample(['len', 'contains', 'iter'], r.choice([1, 2, 3])):
+                members.append(S.Dunder(nm, (S.Arg(S.T(r.choice(['int', 'size_t'])), self.lname(), None),) if nm == 'contains' else ()))
         self.cur_class = None
         if r.random() < f['serialize_p'] and not any(m.k == 'Method' and m.name in ('serialize', 'serializable') for m in members):
             members.append(S.Method('serialize', S.VOID, (), r.random() < 0.5))
